@@ -574,30 +574,82 @@ theorem firstStep_eq (cfg : Cfg) (ps : List Plugin) (st : St) (r : Req) (ok : Bo
          (onRequestComplete cfg ps ok r).1)) := by
   rfl
 
+@[simp] theorem noLife_firstStep (cfg : Cfg) (ps : List Plugin) (st : St) (r : Req) (ok : Bool) :
+    noLife (firstStep cfg ps st r ok).2 = true := by
+  rw [firstStep_eq]; split <;> simp
+
+theorem firstStep_dispatched (cfg : Cfg) (ps : List Plugin) (st : St) (r : Req) (ok : Bool) :
+    (firstStep cfg ps st r ok).1.dispatched = true := by
+  rw [firstStep_eq]; split <;> simp
+
+@[simp] theorem noLife_noUpstreamData (ps : List Plugin) (st : St) (raw : Bytes) :
+    noLife (noUpstreamData ps st raw).2 = true := by
+  have h := noLife_chain .clientData rfl Plugin.clientData Arg.raw 0 ps raw
+  rw [noUpstreamData_eq]; split <;> simp [h]
+
+theorem noUpstreamData_dispatched (ps : List Plugin) (st : St) (raw : Bytes) :
+    (noUpstreamData ps st raw).1.dispatched = st.dispatched := by
+  rw [noUpstreamData_eq]; split <;> simp
+
+@[simp] theorem noLife_pipeline (cfg : Cfg) (ps : List Plugin) (st : St) (raw : Bytes) (more : List (Req × Bytes)) :
+    noLife (pipeline cfg ps st raw more).2 = true := by
+  induction more generalizing st raw with
+  | nil => simp only [pipeline]; split <;> simp [lifeE]
+  | cons q more ih =>
+    obtain ⟨r, rest⟩ := q
+    simp only [pipeline]
+    split
+    · simp [lifeE]
+    · split
+      · simp
+      · simp [ih]
+
+theorem pipeline_dispatched (cfg : Cfg) (ps : List Plugin) (st : St) (raw : Bytes) (more : List (Req × Bytes)) :
+    (pipeline cfg ps st raw more).1.dispatched = st.dispatched := by
+  induction more generalizing st raw with
+  | nil => simp only [pipeline]; split <;> rfl
+  | cons q more ih =>
+    obtain ⟨r, rest⟩ := q
+    simp only [pipeline]
+    split
+    · rfl
+    · split
+      · exact follow_dispatched cfg ps st r
+      · rw [ih, follow_dispatched]
+
+@[simp] theorem noLife_clientData (cfg : Cfg) (ps : List Plugin) (st : St) (raw : Bytes) (more : List (Req × Bytes)) :
+    noLife (clientData cfg ps st raw more).2 = true := by
+  unfold clientData
+  split
+  · simp
+  · split <;> simp [lifeE]
+
+theorem clientData_dispatched (cfg : Cfg) (ps : List Plugin) (st : St) (raw : Bytes) (more : List (Req × Bytes)) :
+    (clientData cfg ps st raw more).1.dispatched = st.dispatched := by
+  unfold clientData
+  split
+  · exact noUpstreamData_dispatched ps st raw
+  · split
+    · rfl
+    · exact pipeline_dispatched cfg ps st raw more
+
 theorem noLife_step (cfg : Cfg) (ps : List Plugin) (st : St) (ev : Ev) : noLife (step cfg ps st ev).2 = true := by
   cases ev with
-  | first r ok =>
+  | first r ok rest more =>
     simp only [step]
     split
     · rfl
-    · rw [firstStep_eq]; split <;> simp
+    · split <;> simp
   | first400 =>
     simp only [step]
     split
     · rfl
     · simp [lifeE]
-  | cdata raw parsed =>
+  | cdata raw more =>
     simp only [step]
     split
     · rfl
-    · split
-      · have h := noLife_chain .clientData rfl Plugin.clientData Arg.raw 0 ps raw
-        rw [noUpstreamData_eq]; split <;> simp [h]
-      · split
-        · simp [lifeE]
-        · split
-          · simp [lifeE]
-          · split <;> simp
+    · simp
   | udata raw =>
     simp only [step]
     split
@@ -623,21 +675,13 @@ theorem noLife_run (cfg : Cfg) (ps : List Plugin) (st : St) (evs : List Ev) : no
 theorem step_dispatched_mono (cfg : Cfg) (ps : List Plugin) (st : St) (ev : Ev) (h : st.dispatched = true) :
     (step cfg ps st ev).1.dispatched = true := by
   cases ev with
-  | first r ok => simp [step, h]
+  | first r ok rest more => simp [step, h]
   | first400 => simp [step, h]
-  | cdata raw parsed =>
+  | cdata raw more =>
     simp only [step]
     split
     · exact h
-    · split
-      · rw [noUpstreamData_eq]; split <;> simp [h]
-      · split
-        · exact h
-        · split
-          · exact h
-          · split
-            · exact h
-            · rw [follow_dispatched]; exact h
+    · rw [clientData_dispatched]; exact h
   | udata raw =>
     simp only [step]
     split
@@ -661,11 +705,14 @@ theorem run_dispatched_mono (cfg : Cfg) (ps : List Plugin) (st : St) (evs : List
   | cons e es ih => simp only [run]; exact ih _ (step_dispatched_mono cfg ps st e h)
 
 /-- the first request of a fresh connection is dispatched to the proxy plugin whatever happens to it -/
-theorem step_first_dispatched (cfg : Cfg) (ps : List Plugin) (r : Req) (ok : Bool) :
-    (step cfg ps {} (.first r ok)).1.dispatched = true := by
-  have h : step cfg ps {} (.first r ok) = firstStep cfg ps {} r ok := by simp [step]
-  rw [h, firstStep_eq]
-  split <;> simp
+theorem step_first_dispatched (cfg : Cfg) (ps : List Plugin) (r : Req) (ok : Bool) (rest : Bytes)
+    (more : List (Req × Bytes)) : (step cfg ps {} (.first r ok rest more)).1.dispatched = true := by
+  simp only [step]
+  split
+  · rename_i h; simp at h
+  · split
+    · exact firstStep_dispatched cfg ps {} r ok
+    · rw [clientData_dispatched]; exact firstStep_dispatched cfg ps {} r ok
 
 /-! ### connections on which nothing can reach a plugin or a peer any more -/
 
